@@ -24,8 +24,8 @@ API_PATHS = {
     "addr::weak_sender::WeakSender::<M>::try_send": {WAITING},
     "addr::caller::Caller::<M>::call": {WAITING},
     "addr::weak_caller::WeakCaller::<M>::try_call": {WAITING},
-    "context::task_handling::<impl context::Context<A>>::interval_with": {WAITING},
-    "context::task_handling::<impl context::Context<A>>::delayed_send": {WAITING},
+    "context::Context::<A>::interval_with": {WAITING},
+    "context::Context::<A>::delayed_send": {WAITING},
     "addr::Addr::<A>::call": {FORCING},
     "addr::Addr::<A>::ping": {FORCING},
     "addr::Addr::<A>::stop": {FORCING},
@@ -36,7 +36,7 @@ API_PATHS = {
     "context::Context::<A>::stop": {FORCING},
     "context::Context::<A>::restart": {FORCING},
     "context::Context::<A>::send_to_children": {FORCING},
-    "context::task_handling::<impl context::Context<A>>::interval": {FORCING},
+    "context::Context::<A>::interval": {FORCING},
 }
 
 
